@@ -144,6 +144,7 @@ func checkC10(c *Ctx, r *Result, tier string) {
 	// ---- R10c -------------------------------------------------------------------------------------
 	c10Queue(c, r, monIface)
 	c10HeapMapSync(c, r, fIncomplete)
+	c10PriorityWidth(c, r, monIface)
 }
 
 func c10RuleLoop(c *Ctx, r *Result, fn *ssa.Function, fAction, fFail *types.Var) {
@@ -571,4 +572,87 @@ func keyOfPush(v ssa.Value) ssa.Value {
 		return mi.X
 	}
 	return v
+}
+
+// ---- R10f: a priority is carried as an int from the API to the queue ------------------------------
+
+// The public API takes priorities as int; the task queue and the root monitor's report compare
+// them as int. Anything narrower in between (a field, a conversion) folds distinct priorities
+// onto each other and reverses their order (MaxInt64 becomes -1 in 32 bits).
+func c10PriorityWidth(c *Ctx, r *Result, monIface *types.Interface) {
+	n := 0
+	intT := types.Typ[types.Int]
+	narrower := func(t types.Type) bool {
+		b, ok := t.Underlying().(*types.Basic)
+		if !ok || b.Info()&types.IsInteger == 0 {
+			return false
+		}
+		switch b.Kind() {
+		case types.Int8, types.Int16, types.Int32, types.Uint8, types.Uint16, types.Uint32:
+			return true
+		}
+		return false
+	}
+	// fields named like a priority in package engine
+	for _, nt := range c.allNamed() {
+		if nt.Obj().Pkg() == nil || !strings.HasSuffix(nt.Obj().Pkg().Path(), "/engine") {
+			continue
+		}
+		st, ok := nt.Underlying().(*types.Struct)
+		if !ok {
+			continue
+		}
+		for i := 0; i < st.NumFields(); i++ {
+			f := st.Field(i)
+			if !strings.EqualFold(f.Name(), "priority") {
+				continue
+			}
+			n++
+			site := "engine." + nt.Obj().Name() + "." + f.Name() + "#width"
+			if !types.Identical(f.Type(), intT) && narrower(f.Type()) {
+				r.Instance("R10f", site, c.Pos(f.Pos()), "finding", "priority stored as "+f.Type().String(), true)
+				r.Report(Finding{Rule: "R10f", Site: site, Pos: c.Pos(f.Pos()),
+					Msg: fmt.Sprintf("the priority of engine.%s is stored as %s although the API takes and the queue compares int: large priority numbers are truncated (MaxInt64 becomes -1), such an event is taken before events with small numbers and the root monitor reports a wrong highest priority", nt.Obj().Name(), f.Type().String())})
+			} else {
+				r.Instance("R10f", site, c.Pos(f.Pos()), "ok", "stored as "+f.Type().String(), true)
+			}
+		}
+	}
+	// narrowing conversions of values that are priorities: results of Priority(), parameters named priority
+	for _, fn := range c.ModFuncs() {
+		if c.PkgOf(fn) != "engine" {
+			continue
+		}
+		key := c.FuncKey(fn)
+		ord := newOrdinals()
+		allInstrs(fn, func(in ssa.Instruction) {
+			cv, ok := in.(*ssa.Convert)
+			if !ok || !narrower(cv.Type()) {
+				return
+			}
+			isPrio := false
+			switch x := unspill(cv.X).(type) {
+			case *ssa.Parameter:
+				isPrio = strings.EqualFold(x.Name(), "priority")
+			case *ssa.Call:
+				isPrio = (x.Call.IsInvoke() && x.Call.Method.Name() == "Priority") || strings.HasSuffix(callName(x), ".Priority")
+			case *ssa.UnOp:
+				if fa, ok := x.X.(*ssa.FieldAddr); ok {
+					if f := fieldVar(fa); f != nil && strings.EqualFold(f.Name(), "priority") {
+						isPrio = true
+					}
+				}
+			}
+			if !isPrio {
+				return
+			}
+			n++
+			site := ord.key(key, "priority-narrowed", cv.Type().String())
+			pos := c.Pos(c.InstrPos(in))
+			r.Instance("R10f", site, pos, "finding", "priority converted to "+cv.Type().String(), true)
+			r.Report(Finding{Rule: "R10f", Site: site, Pos: pos,
+				Msg: fmt.Sprintf("%s converts a priority to %s: distinct priority numbers fold onto each other and large ones change sign — the ascending order of rules and queued events is no longer the order of the numbers the caller gave", key, cv.Type().String())})
+		})
+	}
+	r.Floor("R10f", n, 2)
 }
